@@ -110,6 +110,58 @@ theorem rpms_commutes : Hist.Commutes Rpms.add (CellIndep rpmsSlot) where
                  setPathS_out_other _ _ _ _ (by simp) (fun e => hp e.symm) s,
                  setPathS_out_other _ _ _ _ (by simp) hp s⟩
 
+/-! ### a write that the next call replaces -/
+
+theorem setPathS_fst_congr (f g : PyVal → PyVal × Out) (h : ∀ x, (f x).1 = (g x).1) :
+    ∀ (p : List Str) (s : PyVal), (setPathS f p s).1 = (setPathS g p s).1 := by
+  intro p
+  induction p with
+  | nil => intro s; simp only [setPathS_nil, h]
+  | cons k ks ih =>
+    intro s
+    by_cases hv : ∃ kvs, s = .dict kvs
+    · obtain ⟨kvs, rfl⟩ := hv
+      simp only [setPathS_dict_cons, ih]
+    · have hv' : ∀ kvs, s ≠ .dict kvs := fun kvs e => hv ⟨kvs, e⟩
+      simp only [setPathS_nondict_cons _ k ks s hv']
+
+/-- two updates at one address, one after the other, are one update with the composed leaf function -/
+theorem setPathS_fuse (f1 f2 : PyVal → PyVal × Out) :
+    ∀ (p : List Str) (s : PyVal), (setPathS f2 p (setPathS f1 p s).1).1 = (setPathS (fun x => f2 (f1 x).1) p s).1 := by
+  intro p
+  induction p with
+  | nil => intro s; simp only [setPathS_nil]
+  | cons k ks ih =>
+    intro s
+    by_cases hv : ∃ kvs, s = .dict kvs
+    · obtain ⟨kvs, rfl⟩ := hv
+      simp only [setPathS_dict_cons, lookup_put_same, Option.getD_some, put_put_same, ih]
+    · have hv' : ∀ kvs, s ≠ .dict kvs := fun kvs e => hv ⟨kvs, e⟩
+      simp only [setPathS_nondict_cons _ k ks s hv']
+
+theorem rpmsLeaf_overwrite (k : Str) (r1 r2 x : PyVal) : (rpmsLeaf k r2 (rpmsLeaf k r1 x).1).1 = (rpmsLeaf k r2 x).1 := by
+  by_cases hv : ∃ e, x = .dict e
+  · obtain ⟨e, rfl⟩ := hv
+    simp only [rpmsLeaf_dict, put_put_same]
+  · have hv' : ∀ e, x ≠ .dict e := fun e h => hv ⟨e, h⟩
+    simp only [rpmsLeaf_nondict _ _ x hv']
+
+/-- a write that the NEXT call of the history replaces (same slot) leaves no trace in the mapping -/
+theorem rpms_overwrite (s : PyVal) (a b : RpmsArgs) (hab : rpmsSlot a = rpmsSlot b) (hb : rpmsSlot b ≠ Option.none) :
+    (Rpms.add (Rpms.add s a).1 b).1 = (Rpms.add s b).1 := by
+  simp only [Rpms.add_eq]
+  cases ha' : rpmsCheck a with
+  | error e => rfl
+  | ok pa =>
+    cases hb' : rpmsCheck b with
+    | error e => simp [rpmsSlot, hb'] at hb
+    | ok pb =>
+      simp only [rpmsSlot, ha', hb', Option.some.injEq, List.cons.injEq, and_true] at hab
+      obtain ⟨h1, h2, h3, h4⟩ := hab
+      simp only [h1, h2, h3, h4]
+      rw [setPathS_fuse]
+      exact setPathS_fst_congr _ _ (fun x => rpmsLeaf_overwrite pb.key pa.record pb.record x) _ s
+
 /-! ### Modules.add -/
 
 theorem modulesLeaf_nondict (p : ModulesPlan) (x : PyVal) (h : ∀ e, x ≠ .dict e) : modulesLeaf p x = (x, .error .typeError) := by
